@@ -183,6 +183,31 @@ func ruleR08d(c *Ctx) {
 					}
 				}
 				if g == nil || g.Pkg == nil || !isSoyPkg(g.Pkg.Pkg) {
+					// ... or a synchronised container (sync.Map, sync.Pool, sync.Once) kept in a field of one of the
+					// module's own objects (the Tofu, the registry, a renderer): it is shared by every render that
+					// uses the object, and what one render stores there the next one finds
+					var fa *ssa.FieldAddr
+					switch rv := recv.(type) {
+					case *ssa.FieldAddr: // field of type sync.X
+						fa = rv
+					case *ssa.UnOp: // field of type *sync.X
+						if rv.Op == token.MUL {
+							fa, _ = rv.X.(*ssa.FieldAddr)
+						}
+					}
+					if fa != nil {
+						if rel, tn, isMod := relPkgOfType(fa.X.Type()); isMod {
+							elemT := recv.Type().Underlying().(*types.Pointer).Elem().String()
+							if elemT == "sync.Map" || elemT == "sync.Pool" || elemT == "sync.Once" {
+								n++
+								ord++
+								bad++
+								fieldName := fieldKeyOf(fa.X.Type(), fa.Field)
+								c.bad("R08d", fmt.Sprintf("%s calls %s on %s#%d", e.funcKey(f), sc.Name(), fieldName, ord), in.Pos(),
+									"the "+elemT+" kept in "+rel+"."+tn+" is used through "+callee+" while rendering: what one render stores there (a cached renderer with its injected data or message bundle, a buffer) is found by every later render that uses the same object")
+							}
+						}
+					}
 					continue
 				}
 				n++
